@@ -117,7 +117,7 @@ def search(ctx):
         if (a2, r2) != (act, reason):
             vios.append({"input": {"command": cmd, "config": text, "cwd": CWD}, "observed": {"verdict": act, "reason": reason, "without_non_matching": [a2, r2]}, "required": "non-matching rules are inert", "oracle": "inert"})
         # env-assignment prefix and pure wrappers do not hide the command
-        for pre in (["X=1"], ["A=b", "C=d"], ["timeout", "5"], ["nice"], ["nohup"], ["command"], ["nice", "-n", "3"]):
+        for pre in (["X=1"], ["A=b", "C=d"], ["timeout", "5"], ["nice"], ["nohup"], ["command"], ["nice", "-n", "3"], ["timeout", "30s"], ["timeout", "-s", "KILL", "1.5m"], ["strace"], ["command", "--"], ["nohup", "nice"]):
             ws2 = pre + ws
             single_hits = C.match_command(C.SimpleCommand(words=ws2), cfg, cwd)
             if "=" not in pre[0] and single_hits is not None:
